@@ -125,4 +125,28 @@ def t5(ctx):
     c08.w2(ctx)
 
 
-RULES = [t1, t2, t3, t4, t5]
+@rule("T6", doc="canonicalisation always goes through the union-find entry, also for a live id")
+def t6(ctx):
+    crate = ctx.lib()
+    getters = {b.id for b in crate.fns() if b.id in C.uf_borrowers_mut(crate) and b.id not in C.uf_setters(crate)}
+    reach_get = {b.id for b in crate.fns() if getters & crate.reachable_from([b.id], resolve_traits=False)}
+    n = 0
+    for name in ("find_applied_id", "proven_find_applied_id", "proven_proven_find_applied_id", "find_id", "find_enode"):
+        for b in crate.method("egraph::EGraph", name):
+            for i, d in enumerate(b.defs().get(0, [])):
+                n += 1
+                if d["kind"] == "call":
+                    c = d["call"]
+                    ok = c.callee is not None and (c.callee.target in reach_get or any(role_mentions_call(b.role_of_operand(a), "proven_unionfind_get") or role_mentions_call(b.role_of_operand(a), "unionfind_get") for a in c.args))
+                    r = role_str(("call", c.callee.name if c.callee else "?", "", [b.role_of_operand(a) for a in c.args], c.bb))
+                else:
+                    rr = b.role_of_rvalue(d["rv"])
+                    r = role_str(rr)
+                    ok = any(isinstance(x, tuple) and x[0] == "call" and (b.call_at.get(x[4]) and b.call_at[x[4]].callee and b.call_at[x[4]].callee.target in reach_get) for x in role_walk(rr))
+                ctx.check(ok, "find-consults-unionfind:%s:%d" % (name, i), "%s: the result is derived from the union-find entry" % name,
+                          "%s has a return path whose result (%s) does not come from the union-find entry. A live class's own entry is not the identity once it lost a slot (the entry is rewritten to the restricted identity), so a shortcut for leaders returns handles with arguments that are no longer slots of the class: an equality that held before compares false afterwards" % (name, r[:140]),
+                          where_of(b, d["bb"], d.get("line")))
+    ctx.floor("return paths of the find family", n, 5)
+
+
+RULES = [t1, t2, t3, t4, t5, t6]
